@@ -30,18 +30,22 @@ func (ex *Exec) nativeCall(key string, callee *ssa.Function, c *ssa.CallCommon, 
 		return Val{T: r}, true
 	case "(*sync.RWMutex).Lock", "(*sync.Mutex).Lock":
 		note()
+		ex.curMuOwner = ex.muOwnerType(c.Args[0])
 		ex.lockOp(args[0].T, 2, true, pos)
 		return Val{}, true
 	case "(*sync.RWMutex).RLock":
 		note()
+		ex.curMuOwner = ex.muOwnerType(c.Args[0])
 		ex.lockOp(args[0].T, 1, true, pos)
 		return Val{}, true
 	case "(*sync.RWMutex).Unlock", "(*sync.Mutex).Unlock":
 		note()
+		ex.curMuOwner = ex.muOwnerType(c.Args[0])
 		ex.lockOp(args[0].T, 2, false, pos)
 		return Val{}, true
 	case "(*sync.RWMutex).RUnlock":
 		note()
+		ex.curMuOwner = ex.muOwnerType(c.Args[0])
 		ex.lockOp(args[0].T, 1, false, pos)
 		return Val{}, true
 	case "time.Now":
@@ -474,3 +478,23 @@ func isTimeAfterRecv(i *ssa.UnOp) *ssa.Call { return nil }
 func (ex *Exec) chanClose(ch string) {}
 
 var _ = strings.Contains
+
+// muOwnerType: the guarded type whose field the mutex expression selects (&x.mu or x.mu for a pointer field);
+// "" if the mutex is not a field of a named struct (a local mutex).
+func (ex *Exec) muOwnerType(v ssa.Value) string {
+	if u, ok := v.(*ssa.UnOp); ok && u.Op == token.MUL {
+		v = u.X
+	}
+	fa, ok := v.(*ssa.FieldAddr)
+	if !ok {
+		return ""
+	}
+	pt, ok := ex.typ(fa.X.Type()).Underlying().(*types.Pointer)
+	if !ok {
+		return ""
+	}
+	if n, ok := types.Unalias(pt.Elem()).(*types.Named); ok {
+		return namedKey(n)
+	}
+	return ""
+}
